@@ -76,8 +76,19 @@ def analyse(crate, fn, requires, summaries=None):
                 # a byte peeked)
                 def one(states):
                     return next(iter(states)) if len(states) == 1 else "unknown"
-                return ("fork2", [(Adt("std::result::Result", 0, [UNK]), one(sm.get("ok", {"unknown"}))),
-                                  (Adt("std::result::Result", 1, [UNK]), one(sm.get("err", {"unknown"})))])
+                outs = []
+                if any(k.startswith("ok:") for k in sm) and "ok" not in sm:
+                    # `peek_digit() -> Result<Option<u8>>`: Ok(Some(_)) leaves the byte it looked at peeked, Ok(None) may
+                    # also mean the end of input
+                    if "ok:some" in sm:
+                        outs.append((Adt("std::result::Result", 0, [lex.some(UNK)]), one(sm["ok:some"])))
+                    if "ok:none" in sm:
+                        outs.append((Adt("std::result::Result", 0, [lex.none()]), one(sm["ok:none"])))
+                else:
+                    states = set().union(*[v for k, v in sm.items() if k == "ok" or k.startswith("ok:")]) or {"unknown"}
+                    outs.append((Adt("std::result::Result", 0, [UNK]), one(states)))
+                outs.append((Adt("std::result::Result", 1, [UNK]), one(sm.get("err", {"unknown"}))))
+                return ("fork2", outs)
             path.events.append(("rstate", "unknown"))
         elif c.get("trait") == "parse::read::Read" and c.get("method") not in ("position", "peek_position", "byte_offset") \
                 and takes_mut:
@@ -97,6 +108,9 @@ def analyse(crate, fn, requires, summaries=None):
         k = "any"
         if isinstance(r, Adt) and r.adt.endswith("Result"):
             k = "ok" if r.variant == 0 else "err"
+            pay = r.fields[0] if r.variant == 0 and r.fields else None
+            if isinstance(pay, Adt) and pay.adt.endswith("Option") and fn.local_ty(0).startswith("std::result::Result<std::option::Option<"):
+                k = "ok:some" if pay.variant == 1 else "ok:none"
         summary.setdefault(k, set()).add(st)
     return viol, needs[0], summary
 
@@ -164,7 +178,8 @@ def check(rule, crate):
                 requires.add(f.path)
                 changed = True
             # only loop-free helpers whose every Ok return leaves a byte peeked are summarised
-            if f.path in light and summ.get("ok") == {"some"} and summaries.get(f.path) != summ:
+            useful = summ.get("ok") == {"some"} or ("ok" not in summ and summ.get("ok:some") == {"some"})
+            if f.path in light and useful and summaries.get(f.path) != summ:
                 summaries[f.path] = summ
                 changed = True
         if not changed:
